@@ -387,3 +387,8 @@ RULES = [
     Rule("C07.L5", rule_L5, floor=6, doc="parser / writer coordinate grammar and conversion loops"),
     Rule("C07.L6", rule_L6, floor=6, doc="parsing pipeline"),
 ]
+
+from sa import exits as _exits  # noqa: E402
+
+RULES.append(Rule("C07.RX", _exits.make_rule("C07", "C07.RX", _exits.SCOPES["C07"]), floor=1,
+                  doc="rejection conditions: the anchored functions refuse inputs only under the conditions confirmed on the pinned tree (E16)"))
